@@ -341,6 +341,7 @@ pub fn c02(cfg: &Cfg, rep: &mut Report) {
         }
         c02_case(cfg, rep, cfg.case_seed(i), nm);
     }
+    mid_cases(cfg, rep);
 }
 
 pub fn c02_case(cfg: &Cfg, rep: &mut Report, case_seed: u64, nm: usize) {
@@ -430,6 +431,7 @@ pub fn c03(cfg: &Cfg, rep: &mut Report) {
         }
         c03_case(cfg, rep, cfg.case_seed(i), nm);
     }
+    mid_cases(cfg, rep);
 }
 
 pub fn stable_nontrivial(sem: &Sem, stable: &[Vec<Val>]) -> bool {
@@ -505,6 +507,7 @@ pub fn c04(cfg: &Cfg, rep: &mut Report) {
         }
         c04_case(cfg, rep, cfg.case_seed(i), nm);
     }
+    mid_cases(cfg, rep);
 }
 
 pub const C04_WITNESSES: &[&str] = &[
@@ -691,6 +694,7 @@ pub fn c05(cfg: &Cfg, rep: &mut Report) {
         rep.max("wide_case_two_valued_models", case.sem.two_valued().len() as u64);
         c05_check(cfg, rep, case_seed, &case, 1);
     }
+    mid_cases(cfg, rep);
 }
 
 /// n statements that hardly constrain each other: self-supporting statements, support cycles of two,
@@ -1104,4 +1108,202 @@ fn c05_threaded(
 /// value helpers used by other modules
 pub fn vals_all_decided(v: &[Val]) -> bool {
     v.iter().all(|x| *x == VT || *x == VF)
+}
+
+// ------------------------------------------------------------------------------------------
+// C02 - C05 on mid-size frameworks: far beyond 3^n enumeration, still judged by definition.
+//
+// 12 - 40 statements (thorough: up to 60); the grounded interpretation (support-bounded operator) leaves k <= 10
+// statements undecided. Every fixpoint of the operator refines the least one, so the complete models are the
+// fixpoints among the 3^k refinements of the grounded interpretation, the two-valued models the total ones among its
+// 2^k completions, and the stable models those that the reduct re-derives - all computed without a decision diagram.
+
+pub struct MidCase {
+    pub g: GenAdf,
+    pub text: String,
+    pub grounded: Vec<Val>,
+    pub undecided: usize,
+    pub complete: Option<Vec<Vec<Val>>>,
+    pub two: Vec<Vec<Val>>,
+    pub stable: Vec<Vec<Val>>,
+}
+
+pub fn mid_case(case_seed: u64, thorough: bool) -> MidCase {
+    let mut rng = Rng::new(case_seed ^ 0x3D1D);
+    let n = rng.range(12, if thorough { 60 } else { 40 });
+    let block = rng.range(2, if thorough { 10 } else { 8 });
+    let g = oracle::gen::gen_mid(&mut rng, n, block);
+    let r = g.render(&mut rng, true);
+    let sem = BigSem::new(&g.ac);
+    let (grounded, und) = sem.undecided_after_grounding();
+    let complete = sem.complete(if thorough { 8 } else { 7 });
+    let two = sem.two_valued(12).expect("block of at most ten statements");
+    let stable = two.iter().filter(|v| sem.is_stable(v)).cloned().collect();
+    MidCase { g, text: r.text, grounded, undecided: und.len(), complete, two, stable }
+}
+
+/// loop budget of the nogood search on a framework with k statements left undecided by grounding (see c05_loop_limit)
+pub fn mid_loop_limit(k: usize) -> u64 {
+    2000 + 200 * (1u64 << k.min(20))
+}
+
+pub fn mid_cases(cfg: &Cfg, rep: &mut Report) {
+    let count = cfg.get_usize("mid", if cfg.thorough { 300 } else { 40 });
+    for i in 0..count {
+        if rep.too_many() {
+            break;
+        }
+        mid_check(cfg, rep, cfg.case_seed(4_000_000 + i));
+    }
+}
+
+pub fn mid_check(cfg: &Cfg, rep: &mut Report, case_seed: u64) {
+    let case = mid_case(case_seed, cfg.thorough);
+    let mut rng = Rng::new(case_seed ^ 0x111D);
+    rep.evaluations += 1;
+    rep.count("mid_cases", 1);
+    rep.max("mid_max_statements", case.g.n as u64);
+    rep.max("mid_max_undecided_after_grounding", case.undecided as u64);
+    rep.max("mid_max_two_valued_models", case.two.len() as u64);
+    rep.max("mid_max_stable_models", case.stable.len() as u64);
+    if let Some(c) = &case.complete {
+        rep.max("mid_max_complete_models", c.len() as u64);
+    }
+    if case.two.len() > case.stable.len() || case.stable.len() >= 2 {
+        rep.nontrivial.insert(hash_str(&case.g.structure_key()));
+    }
+    let replay = |detail: Value| json!({"property": cfg.prop, "case_seed": case_seed.to_string(), "mid": true, "adf": case.text, "detail": detail});
+    let budget = SMALL_BUDGET * 50;
+    let sorts: Vec<Sort> = if cfg.thorough { SORTS.to_vec() } else { vec![*rng.pick(&SORTS)] };
+    for sort in sorts {
+        let o = match build(&case.text, sort, true) {
+            Ok(o) => o,
+            Err(e) => {
+                rep.violation("build-failed-mid", e.describe(), replay(json!({"sort": sort.name()})));
+                continue;
+            }
+        };
+        let Some(perm) = perm_of(&o.names, &case.g) else {
+            rep.violation("names-not-a-permutation", "mid".into(), replay(json!({"sort": sort.name()})));
+            continue;
+        };
+        match cfg.prop.as_str() {
+            "c02" => {
+                let Some(want) = &case.complete else {
+                    rep.count("mid_cases_too_many_undecided_for_complete", 1);
+                    continue;
+                };
+                for b in BACKENDS {
+                    let r = guarded(budget, || -> Models {
+                        match b {
+                            Backend::Bio => o.bio.as_ref().unwrap().complete().collect(),
+                            _ => fresh_adf(&o, b).unwrap().complete().collect(),
+                        }
+                    });
+                    match r {
+                        Ok(ms) => {
+                            rep.count("mid_model_sets_compared", 1);
+                            rep.count("models_compared", ms.len() as u64);
+                            let got = to_vals_set(&ms, &perm);
+                            let detail = json!({"backend": b.name(), "sort": sort.name()});
+                            if let Some(d) = diff_sets(&got, want) {
+                                rep.violation("complete-set-differs-mid", format!("{} [{}] complete models of {} statements: {}", b.name(), sort.name(), case.g.n, d), replay(detail));
+                            } else if got.first() != Some(&case.grounded) {
+                                rep.violation("complete-first-not-grounded", format!("{} [{}] first complete model is not the grounded interpretation ({} statements)", b.name(), sort.name(), case.g.n), replay(detail));
+                            }
+                        }
+                        Err(c) => rep.violation(&format!("complete-mid:{}", c.kind()), format!("{} {}", b.name(), c.describe()), replay(json!({"backend": b.name(), "sort": sort.name()}))),
+                    }
+                }
+            }
+            "c03" => {
+                for name in stable_procs(true) {
+                    let r = guarded(budget, || run_stable_proc(&o, name));
+                    match r {
+                        Ok(Ok(ms)) => {
+                            rep.count("mid_model_sets_compared", 1);
+                            rep.count(&format!("proc.{}", name), 1);
+                            let got = to_vals_set(&ms, &perm);
+                            if let Some(d) = diff_sets(&got, &case.stable) {
+                                rep.violation(&format!("stable-set-differs:{}", name), format!("{} [{}] stable models of {} statements: {}", name, sort.name(), case.g.n, d), replay(json!({"proc": name, "sort": sort.name()})));
+                            }
+                        }
+                        Ok(Err(c)) | Err(c) => rep.violation(&format!("stable-mid:{}", c.kind()), format!("{} {}", name, c.describe()), replay(json!({"proc": name, "sort": sort.name()}))),
+                    }
+                }
+            }
+            "c04" => {
+                for b in COUNT_BACKENDS {
+                    for heu_a in [true, false] {
+                        let name = format!("{}.count_{}", b.name(), if heu_a { "a" } else { "b" });
+                        match count_stable(&o, b, heu_a) {
+                            Ok((ms, events)) => {
+                                rep.count("mid_model_sets_compared", 1);
+                                rep.count("mid_count_branches", events.iter().filter(|e| matches!(e, Event::CountBranch { .. })).count() as u64);
+                                let got = to_vals_set(&ms, &perm);
+                                if let Some(d) = diff_sets(&got, &case.stable) {
+                                    rep.violation("count-search-set-differs", format!("{} [{}] stable models of {} statements: {}", name, sort.name(), case.g.n, d), replay(json!({"proc": name, "sort": sort.name()})));
+                                }
+                            }
+                            Err(c) => rep.violation(&format!("count-search-mid:{}", c.kind()), format!("{} {}", name, c.describe()), replay(json!({"proc": name, "sort": sort.name()}))),
+                        }
+                    }
+                }
+            }
+            "c05" => {
+                let loop_limit = mid_loop_limit(case.undecided);
+                for hname in HEURISTICS {
+                    let b = *rng.pick(&[Backend::Native, Backend::HybridPre, Backend::HybridNoPre]);
+                    let mode = *rng.pick(&[NgMode::StableIter, NgMode::StableChannel, NgMode::TwoValChannel]);
+                    let seed = if *hname == "Rand" {
+                        let mut s = [0u8; 32];
+                        for x in s.iter_mut() {
+                            *x = rng.below(256) as u8;
+                        }
+                        Some(s)
+                    } else {
+                        None
+                    };
+                    if hname.starts_with("Custom") {
+                        CUSTOM_STATE.store(rng.next_u64(), Ordering::Relaxed);
+                    }
+                    let detail = json!({"heuristic": hname, "backend": b.name(), "mode": format!("{:?}", mode), "sort": sort.name(),
+                        "rand_seed": seed.map(|s| s.to_vec()), "custom_state": CUSTOM_STATE.load(Ordering::Relaxed).to_string()});
+                    set_model_limit(case.two.len() as u64);
+                    let run = run_nogood(&o, b, mode, heuristic_by_name(hname), seed, budget, loop_limit);
+                    set_model_limit(u64::MAX);
+                    match run {
+                        Ok(run) => {
+                            rep.count("mid_searches", 1);
+                            rep.count(&format!("heuristic.{}", hname), 1);
+                            let loops = run.events.iter().filter(|e| matches!(e, Event::LoopTop { .. })).count() as u64;
+                            rep.max("mid_max_loop_iterations", loops);
+                            // iterations per 2^k, in hundredths: the head-room of the loop budget is visible in the evidence
+                            rep.max("mid_max_loop_iterations_per_2pow_k_x100", loops * 100 / (1u64 << case.undecided.min(20)));
+                            let want = if mode == NgMode::TwoValChannel { &case.two } else { &case.stable };
+                            let got = to_vals_set(&run.models, &perm);
+                            if let Some(d) = diff_sets(&got, want) {
+                                rep.violation(&format!("nogood-set-differs:{}", heu_class(hname)), format!("{} {:?} {} [{}] on {} statements: {}", hname, mode, b.name(), sort.name(), case.g.n, d), replay(detail.clone()));
+                            }
+                            if !run.disconnected {
+                                rep.violation("sender-not-dropped", format!("{} {:?}: channel is still connected after the call returned", hname, mode), replay(detail.clone()));
+                            }
+                        }
+                        Err(Caught::Repeat(k)) => rep.violation(
+                            &format!("nogood-model-reached-again:{}", heu_class(hname)),
+                            format!("{} {:?} {}: the search arrived at a two-valued fixpoint for the {}th time, the framework ({} statements) has only {} two-valued models", hname, mode, b.name(), k, case.g.n, case.two.len()),
+                            replay(detail),
+                        ),
+                        Err(Caught::Budget(steps)) => rep.violation(
+                            &format!("nogood-no-termination:{}", heu_class(hname)),
+                            format!("{} {:?} {}: search on {} statements ({} undecided after grounding) did not finish within {} logical steps (loop limit {})", hname, mode, b.name(), case.g.n, case.undecided, steps, loop_limit),
+                            replay(detail),
+                        ),
+                        Err(c) => rep.violation(&format!("nogood-panic:{}", heu_class(hname)), format!("{} {:?} {}: {}", hname, mode, b.name(), c.describe()), replay(detail)),
+                    }
+                }
+            }
+            _ => {}
+        }
+    }
 }
